@@ -135,6 +135,13 @@ DIRECTED = [
         {"op": "fromfloat", "d": 5, "c": {"sig": I(-15), "exp": -2, "base": 10}, "f": "X"}, {"op": "fromfloat", "d": 6, "c": {"sig": I(12), "exp": -3, "base": 6}, "f": "R"},
         {"op": "const", "d": 4, "c": Qc(1, 18, "R"), "f": "parts"}, {"op": "fromfloat", "d": 5, "c": {"sig": I(6), "exp": -3, "base": 16}, "f": "R"},
         {"op": "fromfloat", "d": 6, "c": {"sig": I(3), "exp": -1, "base": 2}, "f": "Xrepr"}, {"op": "fromfloat", "d": 1, "c": {"sig": I(0), "exp": -4, "base": 10}, "f": "R"}]},
+    # the const constructors: denominators that divide the numerator, common odd factors, powers of two
+    {"pool": "Q", "nr": 6, "steps": [
+        {"op": "const", "d": 1, "c": Qc(6, 3, "R"), "f": "pconst"}, {"op": "const", "d": 2, "c": Qc(2, 1, "R"), "f": "parts"},
+        {"op": "const", "d": 3, "c": Qc(-10, 5, "R"), "f": "pconst"}, {"op": "const", "d": 4, "c": Qc(9, 6, "R"), "f": "pconst"},
+        {"op": "const", "d": 5, "c": Qc(12, 8, "X"), "f": "pconst"}, {"op": "const", "d": 6, "c": Qc(W * 6, W * 3, "R"), "f": "pconst"},
+        {"op": "const", "d": 2, "c": Qc(3, 2, "R"), "f": "parts"}, {"op": "const", "d": 5, "c": Qc(0, 9, "R"), "f": "pconst"},
+        {"op": "const", "d": 1, "c": Qc(7, 7, "R"), "f": "pconst"}, {"op": "const", "d": 3, "c": Qc(W * W - 1, W - 1, "R"), "f": "pconst"}]},
 ]
 
 
